@@ -17,8 +17,9 @@
  *   E
  *
  * The search path and the default repository are process globals, so every history is executed
- * in a freshly forked child of this (never initialised) process: fork without exec.  The child
- * writes, for every operation,
+ * in a freshly forked child of this (never initialised) process: fork without exec (a few children
+ * are kept in flight to hide scheduling latency; every child still sees only its own history).
+ * The child writes, for every operation,
  *
  *   > <op text>
  *   = ok [<returned namespace>] | = err <domain> <code>
@@ -262,14 +263,56 @@ run_op (char *line)
   fflush (stdout);
 }
 
+/* Up to n_slots children are in flight (each writes into its own pipe; a transcript is far smaller
+ * than the pipe buffer); transcripts are copied to stdout in history order. */
+#define MAXSLOTS 32
+static struct { pid_t pid; int fd; char *id; } slots[MAXSLOTS];
+static int n_slots = 8, slot_head, slot_count;
+
+static void
+drain_one (void)
+{
+  char buf[8192];
+  ssize_t n;
+  int status = 0;
+  int k = slot_head;
+
+  printf ("H %s\n", slots[k].id);
+  fflush (stdout);
+  while ((n = read (slots[k].fd, buf, sizeof buf)) != 0)
+    {
+      if (n < 0)
+        continue;
+      if (write (1, buf, n) != n)
+        exit (4);
+    }
+  close (slots[k].fd);
+  while (waitpid (slots[k].pid, &status, 0) < 0)
+    ;
+  if (WIFSIGNALED (status))
+    printf ("X %s signal %d\n", slots[k].id, WTERMSIG (status));
+  else
+    printf ("X %s exit %d\n", slots[k].id, WEXITSTATUS (status));
+  fflush (stdout);
+  g_free (slots[k].id);
+  slot_head = (slot_head + 1) % MAXSLOTS;
+  slot_count--;
+}
+
 static void
 run_history (const char *id)
 {
   pid_t pid;
-  int status = 0, i;
+  int i, k, fds[2];
 
-  printf ("H %s\n", id);
+  if (slot_count >= n_slots)
+    drain_one ();
   fflush (stdout);
+  if (pipe (fds) < 0)
+    {
+      perror ("pipe");
+      exit (4);
+    }
   pid = fork ();
   if (pid < 0)
     {
@@ -278,19 +321,21 @@ run_history (const char *id)
     }
   if (pid == 0)
     {
-      alarm (20);
+      close (fds[0]);
+      dup2 (fds[1], 1);
+      close (fds[1]);
+      alarm (60);
       for (i = 0; i < n_ops; i++)
         run_op (ops[i]);
       fflush (stdout);
       _exit (0);
     }
-  while (waitpid (pid, &status, 0) < 0)
-    ;
-  if (WIFSIGNALED (status))
-    printf ("X %s signal %d\n", id, WTERMSIG (status));
-  else
-    printf ("X %s exit %d\n", id, WEXITSTATUS (status));
-  fflush (stdout);
+  close (fds[1]);
+  k = (slot_head + slot_count) % MAXSLOTS;
+  slots[k].pid = pid;
+  slots[k].fd = fds[0];
+  slots[k].id = g_strdup (id);
+  slot_count++;
 }
 
 int
@@ -299,6 +344,13 @@ main (int argc, char **argv)
   static char line[LINE];
   char id[LINE] = "";
   int in_hist = 0, i;
+
+  if (getenv ("DRV_REPO_JOBS"))
+    n_slots = atoi (getenv ("DRV_REPO_JOBS"));
+  if (n_slots < 1)
+    n_slots = 1;
+  if (n_slots > MAXSLOTS)
+    n_slots = MAXSLOTS;
 
   /* criticals must not kill the child (G_DEBUG=fatal-criticals may be set): count them */
   g_log_set_always_fatal (G_LOG_LEVEL_ERROR);
@@ -384,5 +436,7 @@ main (int argc, char **argv)
           return 3;
         }
     }
+  while (slot_count > 0)
+    drain_one ();
   return 0;
 }
